@@ -110,7 +110,23 @@ def run(ctx, model_ok):
                             "setter); that CPython's deepcopy yields an object graph sharing nothing with the original is observed on the real heap by the scopy stream (no addresses in the model); the "
                             "label string BaseGeo.copy computes (add_iteration_suffix) is a parameter of the model operation, not modelled; non-style keywords of copy() (position=…) are C18's",
                             "resolution_precedence is about the flat model Model/StyleTree.getStyle; nested_resolution_matches_flat links the nested model to it only at paths where the object's "
-                            "style already has a non-dict value and no keyword/default key is a proper prefix or extension of the path"]
+                            "style already has a non-dict value and no keyword/default key is a proper prefix or extension of the path",
+                            "(audit2) the model outcome `shadow` is NOT a rejection by the code: `obj.style._opacity = 'bogus'` raises nothing, changes what `style.opacity` / as_dict() "
+                            "give and leaves a state in which `style.update()` raises AssertionError. The history theorems (reads_refine, reachable_states_wellformed / _stable, rejected_setattr_keeps_world, "
+                            "rejected_op_keeps_world with e = shadow) quantify over such operations too and then speak about the model only (it leaves the world alone); the sstate stream "
+                            "UNDOES the real private-slot write before it compares, so it does not test them either. Read those theorems for histories without a `shadow` outcome",
+                            "(audit2) in reads_refine / defaults_reads_refine_partial 'accepted' means accepted by the MODEL's own step (annot); the outcome bits are eliminated only for histories of "
+                            "leaf assignments, defaults.reset(), obj.style = other.style and reads (leaf_histories_last_valid_assignment_wins: acceptance = the validator row accepts, leaf_assign_outcome); for "
+                            "update / obj.style = dict / display.style.reset() no theorem says WHEN they are accepted (only the stream: outcome compared after every operation)",
+                            "(audit2) display.style.reset(): no theorem that it is always accepted nor that it restores every style default (reset_restores is about defaults.reset() only); when the model accepts "
+                            "it, reads_refine gives the setter's image of DEFAULTS at every leaf DEFAULTS['display']['style'] has; sstate stream: RS operations compared exactly",
+                            "(audit2) styles_independent, objects_independent_of_history, style_object_assignment_ignored, rejected_update_keeps_state and the unknown-name theorems (setattr_unknown_name_rejected*) "
+                            "restate how the model is BUILT (one tree per object and `setTree w i`; `setStyleObj` returns the world; `updateObj` returns the old state on every error branch; `setAttr` answers "
+                            "AttributeError for a name outside props/others): their content is the sstate stream (final trees of all objects, heap_pairs_checked, rejected_updates_heap_checked, odd_names), not the proof",
+                            "(audit2) the validator table is probed on a NEW instance of each class: that a leaf setter does not depend on the object's other properties (and the alias / string-shorthand shapes found by "
+                            "probing one value) is assumed by the model and tied only by the stream; validators_idempotent / 'every stored leaf is a fixpoint of its validator' are facts about the 86 panel values",
+                            "(audit2) precedence over HISTORIES: effective_style_refines_partial requires that no show() keyword is a prefix / extension of the leaf (instances: the empty one and, audit2, one with a two-operation history and a one-key default dictionary, no families); "
+                            "'show kwarg > object > family > base' for every leaf is decided on the flat model (resolution_precedence) and sampled by the oracle"]
 
 
 def replay(ctx, payload):
